@@ -1,14 +1,68 @@
-import Np.Proofs.MapCoef
-/-! C01 — ring arithmetic is exact: property theorems (helpers live in Np/Proofs). -/
+import Np.Proofs.Expr
+/-! C01 — ring arithmetic on polynomial arrays is exact: property theorems (helpers live in Np/Proofs). -/
 namespace Np.Props.C01
-open MvPolynomial
+open MvPolynomial Shape
+
+section poly
 variable {S : Type} [CommSemiring S] [BEq S] [LawfulBEq S]
 
 /-- the sum denotes the sum, whatever the retain flags, for any number of terms, names and elements -/
 theorem add_den (rc rn : Bool) (a b : Poly S) (ha : WF a) (hb : WF b) :
     den (add rc rn a b) = den a + den b := (Np.add_den rc rn a b ha hb).1
 
-/-- the product is fully written (no unwritten buffer cell survives) and denotes the product -/
+/-- the product is fully written (no unwritten buffer cell survives the set-or-accumulate loop) and denotes the product -/
 theorem mul_den (rc rn : Bool) (a b : Poly S) (ha : WF a) (hb : WF b) :
     ∃ r, multiply rc rn a b = some r ∧ den r = den a * den b := Np.mul_den rc rn a b ha hb
+
+/-- `**k` with a scalar exponent: `k` multiplications starting from the constant one -/
+theorem pow_den (rc rn : Bool) (p : Poly S) (hp : WF p) (k : Nat) :
+    ∃ r, powS rc rn p k = some r ∧ den r = den p ^ k ∧ WF r := pow_den_WF rc rn p hp k
+end poly
+
+section ring
+variable {S : Type} [CommRing S] [BEq S] [LawfulBEq S]
+theorem sub_den (rc rn : Bool) (a b : Poly S) (ha : WF a) (hb : WF b) :
+    den (sub rc rn a b) = den a - den b := (sub_den_WF rc rn a b ha hb).1
+theorem neg_den (rc rn : Bool) (a : Poly S) (ha : WF a) : den (neg rc rn a) = - den a := (neg_den_WF rc rn a ha).1
+end ring
+
+section arrays
+variable {R : Type} [CommRing R] [BEq R] [LawfulBEq R]
+
+/-- `+` on arrays: numpy's broadcast shape; element `i` is the sum of the operands' elements at the broadcast
+positions; the result is well-formed (same for `-` and `*`: `Arr.sub_spec`, `Arr.mul_spec`) -/
+theorem array_add (rc rn : Bool) (a b r : Arr R) (ha : a.WF) (hb : b.WF) (h : Arr.add rc rn a b = .ok r) :
+    r.WF ∧ bshape a.shape b.shape = some r.shape ∧
+      ∃ (σa : Fin (size r.shape) → Fin (size a.shape)) (σb : Fin (size r.shape) → Fin (size b.shape)),
+        (∀ i, (σa i).val = bindex a.shape r.shape i.val) ∧ (∀ i, (σb i).val = bindex b.shape r.shape i.val) ∧
+        ∀ i, r.elem i = a.elem (σa i) + b.elem (σb i) := Arr.add_spec rc rn a b r ha hb h
+
+theorem array_mul (rc rn : Bool) (a b r : Arr R) (ha : a.WF) (hb : b.WF) (h : Arr.mul rc rn a b = .ok r) :
+    r.WF ∧ bshape a.shape b.shape = some r.shape ∧
+      ∃ (σa : Fin (size r.shape) → Fin (size a.shape)) (σb : Fin (size r.shape) → Fin (size b.shape)),
+        (∀ i, (σa i).val = bindex a.shape r.shape i.val) ∧ (∀ i, (σb i).val = bindex b.shape r.shape i.val) ∧
+        ∀ i, r.elem i = a.elem (σa i) * b.elem (σb i) := Arr.mul_spec rc rn a b r ha hb h
+
+/-- the "programs" quantifier: every expression tree over `+ - * neg pos **k`, of any depth, evaluates in the model
+to the array whose shape is numpy's broadcast shape and whose elements are the same ring expression of the leaves'
+(broadcast) elements in `MvPolynomial Name R`; results of earlier operations may be operands; the result is
+well-formed; this holds for every setting of the retain flags -/
+theorem expr_den (rc rn : Bool) (env : List (Arr R)) (henv : ∀ a ∈ env, a.WF) (t : Expr) (r : Arr R)
+    (h : evalModel rc rn env t = .ok r) : r.WF ∧ ∃ sf, specEval env t = some sf ∧ Agrees r sf :=
+  Np.expr_den rc rn env henv t r h
+
+/-- … so every composition obeys the commutative-ring laws (they hold in the specification) -/
+theorem distributivity (f g h : MvPolynomial Name R) : (f + g) * h = f * h + g * h := add_mul f g h
+theorem commutativity (f g : MvPolynomial Name R) : f * g = g * f := mul_comm f g
+theorem associativity (f g h : MvPolynomial Name R) : f * g * h = f * (g * h) := mul_assoc f g h
+end arrays
+
+/-- non-vacuity: a = [[q0+1, q2]] (1×2, names q0,q2), b = [[q1],[q0·q1]] (2×1): the model evaluates (a+b)·b² to a
+2×2 array over q0,q1,q2 -/
+example :
+    let a : Arr Int := ⟨[1, 2], { names := [0, 2], terms := [([0, 0], #v[1, 0]), ([1, 0], #v[1, 0]), ([0, 1], #v[0, 1])] }⟩
+    let b : Arr Int := ⟨[2, 1], { names := [0, 1], terms := [([0, 1], #v[1, 0]), ([1, 1], #v[0, 1])] }⟩
+    (match evalModel false true [a, b] (.mul (.add (.leaf 0) (.leaf 1)) (.pow (.leaf 1) 2)) with
+      | .ok r => (r.shape, r.poly.names, r.poly.terms.length)
+      | .error _ => ([], [], 0)) = ([2, 2], [0, 1, 2], 8) := by decide +kernel
 end Np.Props.C01
